@@ -492,6 +492,22 @@ def write_replay(prop: str, f: Finding) -> Path:
     return p
 
 
+def lift(rep: 'Report', rid: str, other_prop: str, run: Callable[['Report'], None], rules: tuple[str, ...],
+         construct: str, what: str, only: Callable[['Finding'], bool] | None = None) -> None:
+    """A clause of this property rests on a rule another property owns: run that rule (`run(sub)` on a
+    sub-report of the other property) and report its unlisted findings under this property's rule id."""
+    import types
+    sub = Report(other_prop, rep.repo, 'quick')
+    run(sub)
+    known, _ = load_known(other_prop)
+    hits = [f for f in sub.findings if f.rule in rules and match_known(f, known) is None and (only is None or only(f))]
+    n_inst = sum(sub.rules[r].instances for r in rules if r in sub.rules)
+    if not hits:
+        rep.ok(rid, construct, what, f'{", ".join(rules)} of {other_prop} hold ({n_inst} instance(s))')
+    for f in hits:
+        rep.fail(rid, f.construct, f'{f.rule}: {f.key}', f.message, types.SimpleNamespace(lineno=f.line), file=f.file)
+
+
 def run_check(prop: str, analyse: Callable[[Report], None], tier: str,
               selftest: Callable[[Report], dict] | None = None,
               replay: str | None = None) -> int:
